@@ -159,6 +159,8 @@ pub struct Ctx {
     pub zst_slack: bool,
     /// logic-error keys (inconsistent Hash / Eq), see `Chaos`
     pub chaos: Option<Chaos>,
+    /// the rest of this run judges structure only (C05 after an interrupted clone_from)
+    pub structural: bool,
     // ids
     pub step: u64,
     pub next_in_step: u64,
@@ -359,7 +361,10 @@ pub fn check_live(id: u64, what: &str) {
 /// A closure was handed something the model does not expect. Under logic-error keys the
 /// model means nothing, so this is not evidence there.
 pub fn note_expectation(msg: String) {
-    if CTX.with(|c| c.borrow().chaos.is_some()) {
+    if CTX.with(|c| {
+        let c = c.borrow();
+        c.chaos.is_some() || c.structural
+    }) {
         return;
     }
     note_error(msg)
